@@ -292,6 +292,53 @@ func randHistory(r *vf.Rng, maxBlocks int) *History {
 	case x < 26:
 		h.SideE = "raw"
 	}
+	// two branches from a common ancestor: a second builder forks off a few blocks
+	// before the end and builds 2-5 blocks of its own with staking transactions
+	// and evidences
+	if r.Chance(38) && nb >= 2 {
+		f := &ForkIn{At: nb - 1 - r.Intn(min(5, nb))}
+		if f.At < 0 {
+			f.At = 0
+		}
+		na := 2 + r.Intn(4)
+		for j := 0; j < na; j++ {
+			b := BlockIn{Proposer: present[r.Intn(len(present))]}
+			for k := 1 + r.Intn(3); k > 0; k-- {
+				t := randTx(r, h.NVKeys)
+				if r.Chance(70) {
+					g := h.Vals[r.Intn(len(h.Vals))]
+					switch r.Intn(4) {
+					case 0:
+						t = TxIn{Kind: "dadd", From: r.Intn(nAcct - 1), Val: g.Key, Value: fmt.Sprintf("%d", 2+r.Intn(5)) + YOU, Gas: 300000}
+					case 1:
+						t = TxIn{Kind: "deposit", From: g.Operator, Val: g.Key, Value: fmt.Sprintf("%d", 1+r.Intn(4)) + YOU, Gas: 300000}
+					case 2:
+						t = TxIn{Kind: "withdraw", From: g.Operator, Val: g.Key, Recipient: r.Intn(nAcct), Value: "1" + YOU, Gas: 300000}
+					default:
+						t = TxIn{Kind: "settle", From: g.Operator, Val: g.Key, Gas: 300000}
+					}
+					t.Price = uint64(16*(1+r.Intn(4)) + t.From)
+				}
+				b.Txs = append(b.Txs, t)
+			}
+			if uint64(j) <= h.Params.StakeLookBack && r.Chance(55) {
+				e := EvIn{Kind: "valid", Signer: present[r.Intn(len(present))], Rel: true}
+				if r.Chance(15) {
+					e.Kind = []string{"badsig", "samehash", "onesign"}[r.Intn(3)]
+				}
+				b.Evs = append(b.Evs, e)
+			}
+			f.Blocks = append(f.Blocks, b)
+		}
+		switch x := r.Intn(100); {
+		case x < 35:
+			f.Unprepared = "stored"
+		case x < 45:
+			f.Unprepared = "raw"
+		}
+		h.Fork = f
+		h.SideE = ""
+	}
 	for left := nb; left > 0; {
 		k := 1 + r.Heavy(6)
 		if k > left {
@@ -319,7 +366,11 @@ func runHistory(h *History, reps int) (obs []*BlockObs, crashed string) {
 	obs = w.run(reps)
 	w.headMoved(obs)
 	w.carried(obs)
-	w.sideChains(obs)
+	if h.Fork != nil {
+		w.forks(obs)
+	} else {
+		w.sideChains(obs)
+	}
 	return obs, ""
 }
 
@@ -332,12 +383,13 @@ func digest(obs []*BlockObs) string {
 		Inc  []string
 		Side string
 		SideE string
+		Fork  *ForkObs
 	}
 	var ps []proj
 	for _, o := range obs {
 		c := *o
 		c.ReexecDiff = nil
-		ps = append(ps, proj{&c, o.Evs, o.HeadMovedDiff, o.CarriedDiff, o.Incoherent, o.SideErr, o.SideEErr})
+		ps = append(ps, proj{&c, o.Evs, o.HeadMovedDiff, o.CarriedDiff, o.Incoherent, o.SideErr, o.SideEErr, o.Fork})
 	}
 	b, _ := json.Marshal(ps)
 	s := sha256.Sum256(b)
@@ -435,6 +487,35 @@ func judge(h *History, obs []*BlockObs, crashed string, v *verdicts) {
 			} else {
 				v.counts["side_chain_import_accepted"]++
 				v.counts["side_chain_blocks"] += o.SideLen
+			}
+		}
+		if fo := o.Fork; fo != nil {
+			switch {
+			case fo.Skipped != "":
+				v.counts["fork_skipped"]++
+			default:
+				v.counts["fork_histories"]++
+				v.counts["fork_side_chain_blocks"] += fo.SideBlocks
+				v.counts["fork_confirmed_evidences"] += fo.Confirmed
+				v.counts["fork_alt_branch_txs"] += fo.StakingTxs
+				if fo.AltCrash != "" {
+					v.counts["fork_second_builder_crash"]++
+				}
+			}
+			for _, p := range fo.Problems {
+				v.counts["fork_problem"]++
+				add(&v.hits, "two branches from a common ancestor: the importing node does not end with the builder's longer branch, states and receipts", o, p)
+			}
+			if fo.UnpreparedMode != "" {
+				switch {
+				case fo.Unprepared == "":
+					v.counts["fork_"+fo.UnpreparedMode+"_accepted"]++
+				case !strings.HasPrefix(fo.Unprepared, "panic"):
+					v.counts["finding_side_chain_pending_txs"]++
+					add(&v.known, findSidePendingTxs, o, fo.Unprepared)
+				default:
+					add(&v.hits, "the side-chain import path panics on a node whose database is not prepared ("+fo.UnpreparedMode+")", o, fo.Unprepared)
+				}
 			}
 		}
 		// node E differs from node D only in what its database holds about the fork
@@ -658,23 +739,29 @@ func gen(seed uint64, n int, outDir, corpusDir string, procs int) {
 			}
 		}
 	}
+	// the histories are fixed before anything runs (budget = planned blocks), so
+	// that the fresh processes can re-run them while this process runs them
+	var planned []*History
+	nCorpus := 0
 	for _, h := range loadCorpus(corpusDir) {
-		runOne(h)
-		v.counts["corpus"]++
+		planned = append(planned, h)
+		nCorpus++
 	}
-	for blocks < n {
-		runOne(randHistory(r, 40))
+	for pb := 0; pb < n; {
+		h := randHistory(r, 40)
+		planned = append(planned, h)
+		pb += len(h.Blocks)
 	}
-	// fresh processes: Go seeds its map iteration per process
-	if procs > 0 && len(hist) > 0 {
-		hf := filepath.Join(outDir, "histories.json")
-		b, _ := json.Marshal(hist)
+	type childRes struct {
+		out []byte
+		err error
+	}
+	ch := make(chan childRes, procs+1)
+	hf := filepath.Join(outDir, "histories.json")
+	if procs > 0 {
+		// fresh processes: Go seeds its map iteration per process
+		b, _ := json.Marshal(planned)
 		vf.WriteFile(hf, string(b))
-		type childRes struct {
-			out []byte
-			err error
-		}
-		ch := make(chan childRes, procs)
 		for p := 0; p < procs; p++ {
 			go func() {
 				cmd := exec.Command(os.Args[0], "exec", "-file", hf)
@@ -683,6 +770,14 @@ func gen(seed uint64, n int, outDir, corpusDir string, procs int) {
 				ch <- childRes{out, err}
 			}()
 		}
+	}
+	for i, h := range planned {
+		runOne(h)
+		if i < nCorpus {
+			v.counts["corpus"]++
+		}
+	}
+	if procs > 0 {
 		for p := 0; p < procs; p++ {
 			cr := <-ch
 			var ds []string
@@ -798,7 +893,7 @@ func replay(file string) {
 		v.hits = append(v.hits, Hit{What: "the same history gave different blocks, receipts or logs on a second run"})
 	}
 	for _, o := range obs {
-		fmt.Printf("block %d built=%v imported=%v err=%q txs=%d slash=%d bytes reexec=%v headmoved=%q carried=%v incoherent=%v side=%q sideE=%q\n", o.Number, o.Built, o.Imported, o.ImportErr, o.NTx, len(o.SlashData)/2, o.ReexecDiff, o.HeadMovedDiff, o.CarriedDiff, o.Incoherent, o.SideErr, o.SideEErr)
+		fmt.Printf("block %d built=%v imported=%v err=%q txs=%d slash=%d bytes reexec=%v headmoved=%q carried=%v incoherent=%v side=%q sideE=%q fork=%+v\n", o.Number, o.Built, o.Imported, o.ImportErr, o.NTx, len(o.SlashData)/2, o.ReexecDiff, o.HeadMovedDiff, o.CarriedDiff, o.Incoherent, o.SideErr, o.SideEErr, o.Fork)
 	}
 	if len(v.hits) > 0 {
 		fmt.Printf("ORACLE VIOLATION: %s (block %d): %s\n", v.hits[0].What, v.hits[0].Block, v.hits[0].Detail)
